@@ -36,10 +36,11 @@ Oracle clauses (violation key = C15:<clause>:...):
                                                  .parsed not cached)
 The statement is silent about WHAT a corrupted frame parses to, so the oracle is too (no reference parser).
 """
-import os, sys
+import os, struct, sys
 from mc.engine import pmap, LineBudget
 from mc.report import Report, digest
 from mc.refs.pktcorpus import corpus, CORPUS_PATHS
+from mc.refs import rfc1071 as R
 
 PID = "C15"
 MAX_CHAIN = 32             # links; the deepest valid corpus chain has 7
@@ -66,7 +67,8 @@ def small_values (b):
 
 def cases (family, frame):
   """Generator of (L, p, v): the mutant is frame with byte p replaced by v (p None: no replacement),
-  truncated to L bytes.  Every (L, p, v) of a family yields a distinct byte string."""
+  truncated to L bytes (and, for the fix-* families, repaired by repair_icmp6).  Every (L, p, v) of a
+  family yields a distinct byte string."""
   n = len(frame)
   if family == "valid":
     yield (n, None, None)
@@ -88,19 +90,67 @@ def cases (family, frame):
       for p in range(L):
         for v in small_values(frame[p]):
           yield (L, p, v)
+  # structure-aware families: ICMPv6 is the one parser that refuses a body whose checksum is wrong, so
+  # a corrupted ICMPv6 body only reaches the ND / error-message parsers when length and checksum fit
+  elif family == "fix-trunc":
+    for L in range(ICMP6_OFF + 4, n):
+      yield (L, None, None)
+  elif family == "fix-byte":
+    for p in range(IP6_SRC_OFF, n):
+      if p in ICMP6_CSUM: continue
+      for v in small_values(frame[p]):
+        yield (n, p, v)
+  elif family == "fix-byte255":
+    for p in range(ICMP6_OFF, n):
+      if p in ICMP6_CSUM: continue
+      sv = small_values(frame[p])
+      for v in range(256):
+        if v != frame[p] and v not in sv:
+          yield (n, p, v)
+  elif family == "fix-pair":
+    for L in range(ICMP6_OFF + 5, n):
+      for p in range(ICMP6_OFF, L):
+        if p in ICMP6_CSUM: continue
+        for v in small_values(frame[p]):
+          yield (L, p, v)
   else:
     raise ValueError(family)
 
 
-def mutant (frame, L, p, v):
-  if p is None: return frame[:L]
-  m = bytearray(frame)
-  m[p] = v
-  return bytes(m[:L])
+IP6_LEN_OFF, IP6_SRC_OFF, ICMP6_OFF = 18, 22, 54
+ICMP6_CSUM = (56, 57)
+
+def is_icmp6 (frame):
+  """eth / ipv6 (no extension header) / icmpv6"""
+  return len(frame) >= ICMP6_OFF + 4 and frame[12:14] == b'\x86\xdd' and frame[20] == 58
+
+def repair_icmp6 (m):
+  """Make the IPv6 payload length and the ICMPv6 checksum of a mutant fit its bytes (RFC 4443 2.3,
+  computed with refs/rfc1071, not with POX)."""
+  if len(m) < ICMP6_OFF + 4: return m
+  b = bytearray(m)
+  n = len(b) - ICMP6_OFF
+  b[IP6_LEN_OFF:IP6_LEN_OFF + 2] = struct.pack("!H", n)
+  b[56:58] = b'\x00\x00'
+  c = R.csum(R.pseudo6(bytes(b[22:38]), bytes(b[38:54]), 58, n) + bytes(b[ICMP6_OFF:]))
+  b[56:58] = struct.pack("!H", c)
+  return bytes(b)
+
+
+def mutant (family, frame, L, p, v):
+  if p is None:
+    m = frame[:L]
+  else:
+    m = bytearray(frame)
+    m[p] = v
+    m = bytes(m[:L])
+  if family.startswith("fix-"): m = repair_icmp6(m)
+  return m
 
 
 def families (cfg):
-  return ["valid", "trunc", "byte"] + ([] if cfg.quick else ["byte255", "pair"])
+  return (["valid", "trunc", "byte", "fix-trunc", "fix-byte"]
+          + ([] if cfg.quick else ["byte255", "pair", "fix-byte255", "fix-pair"]))
 
 
 # ---------------------------------------------------------------------------------------------
@@ -229,11 +279,16 @@ def make_guard (P, budget=None):
   return JumpBudget(P.root, budget or JUMP_BUDGET)
 
 
+class _Missing (object):
+  def __repr__ (self): return "<missing>"
+MISSING = _Missing()
+
+
 class Case (object):
   """One mutant examined.  bad: list of (key suffix, what); sig: digestable outcome."""
   def __init__ (self, P, data, budget=None):
     self.P = P; self.data = data; self.budget = budget
-    self.bad = []; self.sites = {}; self.calls = 0; self.sig = []; self.text = None; self.maxlines = 0
+    self.bad = []; self.sites = {}; self.broken = None; self.calls = 0; self.sig = []; self.text = None; self.maxlines = 0
 
   def fail (self, clause, what):
     self.bad.append((clause, what))
@@ -282,19 +337,29 @@ class Case (object):
         self.fail("chain:too-long", "%s: more than %d links along .next" % (tag, MAX_CHAIN))
         return chain, None
       holder = p
-      p = p.next
+      self.calls += 1
+      try:
+        p = p.next
+      except Exception as e:
+        self.fail("raises:walk:%s.next:%s" % (type(holder).__name__, type(e).__name__),
+                  "%s: reading .next of a %s header raised %s: %s" % (tag, type(holder).__name__, type(e).__name__, e))
+        self.sig.append(("walk", type(holder).__name__, type(e).__name__))
+        self.broken = holder
+        return chain, None
 
   def check_unparsed (self, chain, term, tag):
     data = self.data
     for h in chain:
-      if h.parsed is True: continue
+      if h is self.broken: continue       # already reported by walk (the header was never initialised)
       cn = type(h).__name__
-      if h.parsed is not False:
-        self.fail("unparsed-raw:%s:parsed-not-bool" % cn, "%s: %s.parsed is %r" % (tag, cn, h.parsed))
-      raw = h.raw
+      parsed = getattr(h, "parsed", MISSING)
+      if parsed is True: continue
+      if parsed is not False:
+        self.fail("unparsed-raw:%s:parsed-is-%s" % (cn, type(parsed).__name__), "%s: %s.parsed is %r" % (tag, cn, parsed))
+      raw = getattr(h, "raw", MISSING)
       if not isinstance(raw, bytes):
         self.fail("unparsed-raw:%s:raw-is-%s" % (cn, type(raw).__name__),
-                  "%s: a %s header with parsed=False has raw=%s, the unparsed bytes are lost" % (tag, cn, type(raw).__name__))
+                  "%s: a %s header with parsed=%r has raw=%s, the unparsed bytes are lost" % (tag, cn, parsed, type(raw).__name__))
         continue
       if raw not in data:
         self.fail("unparsed-raw:%s:not-a-slice" % cn,
@@ -303,7 +368,7 @@ class Case (object):
       holder = type(chain[-1]).__name__ if chain else "?"
       self.fail("unparsed-raw:%s:payload-not-a-slice" % holder,
                 "%s: the bytes payload left under %s is not a slice of the offered frame" % (tag, holder))
-    if chain and chain[0].raw != data:
+    if chain and getattr(chain[0], "raw", MISSING) != data:
       self.fail("unparsed-raw:ethernet:top-raw-differs", "%s: ethernet.raw is not the offered frame" % tag)
 
   def render (self, top, chain):
@@ -322,7 +387,8 @@ class Case (object):
       elif self.text is None: self.text = d
     # pack() of an unparsed header without payload must hand back what it was given
     for h in chain:
-      if h.parsed is False and h.next is None and isinstance(h.raw, bytes):
+      if (getattr(h, "parsed", MISSING) is False and getattr(h, "next", MISSING) is None
+          and isinstance(getattr(h, "raw", MISSING), bytes)):
         raw = h.raw
         ok, b = self.guarded("pack", h.pack)
         okall &= ok
@@ -394,7 +460,7 @@ def _parsed (ev):
 
 
 def shape_of (chain, term):
-  return (tuple((type(h).__name__, h.parsed) for h in chain),
+  return (tuple((type(h).__name__, getattr(h, "parsed", MISSING)) for h in chain),
           None if term is None else "bytes" if len(term) else "empty")
 
 
@@ -402,7 +468,7 @@ def shape_of (chain, term):
 # workers
 # ---------------------------------------------------------------------------------------------
 
-FAMILY_ORDER = {"valid": 0, "trunc": 1, "byte": 2, "byte255": 3, "pair": 4}
+FAMILY_ORDER = {"valid": 0, "trunc": 1, "byte": 2, "byte255": 3, "pair": 4, "fix-trunc": 5, "fix-byte": 6, "fix-byte255": 7, "fix-pair": 8}
 
 def describe (name, family, L, p, v, frame):
   d = dict(frame=name, family=family, length=L, full_length=len(frame))
@@ -426,7 +492,7 @@ def _worker (item):
   maxlines = 0
   for j, (L, p, v) in enumerate(cases(family, frame)):
     if j % n != i: continue
-    data = mutant(frame, L, p, v)
+    data = mutant(family, frame, L, p, v)
     c = Case(P, data).run()
     rep.evaluations += 1
     rep.transitions += c.calls
@@ -464,9 +530,11 @@ def work_items (cfg):
   items = []
   for fam in families(cfg):
     for name in names:
+      if fam.startswith("fix-") and not is_icmp6(C[name]): continue
       if fam in ("valid", "trunc"): n = 1
       elif fam == "byte": n = SLICES_Q if len(C[name]) > 150 else 1
-      elif fam == "byte255": n = 4
+      elif fam in ("byte255", "fix-byte255"): n = 4
+      elif fam in ("fix-trunc", "fix-byte"): n = 1
       else: n = max(1, min(SLICES_T * 4, (len(C[name]) ** 2) // 1500))
       for i in range(n):
         items.append((fam, name, i, n))
@@ -480,14 +548,16 @@ def run (cfg):
   fams = families(cfg)
   rep.rule = ("for each of the %d valid corpus frames (%d bytes in total; mc/refs/pktcorpus.py, one or more per parser "
               "path): the frame itself; every truncation length 0..len-1; every byte position x replacement values "
-              "{0x00,0xff,b^0x01,b^0x80,b+1}%s. Each mutant is parsed by ethernet(raw=) and via "
-              "ofp_packet_in pack/unpack -> PacketIn.parsed, walked along .next, printed (str of every header, dump) "
-              "and re-packed, every phase under a budget of %d %s. distinct = distinct (frame, header "
-              "chain with parsed flags, raising sites, pack()==input) digests; cases = distinct (frame, length, "
-              "position, value) descriptors"
+              "{0x00,0xff,b^0x01,b^0x80,b+1}%s; for the %d eth/ipv6/icmpv6 frames the same families once more from the "
+              "IPv6 addresses on, with IPv6 payload length and ICMPv6 checksum repaired (the ICMPv6 parser drops bodies "
+              "with a wrong checksum). Each mutant is parsed by ethernet(raw=) and via ofp_packet_in pack/unpack -> "
+              "PacketIn.parsed, walked along .next, printed (str of every header, dump) and re-packed, every phase "
+              "under a budget of %d %s. distinct = distinct (frame, header chain with parsed flags, raising sites, "
+              "pack()==input) digests; cases = distinct (family, frame, length, position, value) descriptors"
               % (len(C), sum(len(f) for f in C.values()),
                  "" if cfg.quick else "; all 255 alternative values for each of the first %d bytes; every truncation "
                  "length x every corrupted position below it x the same value set" % FIRST,
+                 sum(1 for f in C.values() if is_icmp6(f)),
                  LINE_BUDGET if GUARD == "line" else JUMP_BUDGET,
                  "traced lines of pox/lib/packet" if GUARD == "line" else "loop iterations (backward jumps) inside the POX tree"))
   rep.bound = dict(frames=len(C), families=fams, first_bytes_all_values=(0 if cfg.quick else FIRST),
